@@ -1,8 +1,33 @@
-(* Properties_C14.v -- C14: tokenising (placeholder theorems; the refinement proof is in progress). *)
+(* Properties_C14.v -- C14: tokenising.  Only theorem statements, each closed by [exact].
+   Proved so far: store footprint of every call (only *ptr, *dmaxp and the string, up to and including the
+   element at index dmax -- the latter is the known finding tok-unterminated-writes-dest-dmax), and the
+   handler discipline of every call.  The token-sequence refinement to the reference tokeniser is covered by
+   the correspondence run (exhaustive small strings x delimiter schedules) and is the next proof target. *)
 From Coq Require Import List ZArith Lia Bool.
-From SC Require Import Base Cfg Comb ModTok.
+From SC Require Import Base Wp Cfg Comb CombProofs ModTok ProofsTok PropDefs.
 From SC.Gen Require Import Consts.
+Import ListNotations.
 Local Open Scope Z_scope.
+
+Theorem C14_tokskip_stores : forall c w wide dmaxp ptr delim n d, 0 < w ->
+  C01_holds (tokP w dmaxp ptr d n) (tokskip c w wide dmaxp ptr delim n d).
+Proof. intros. apply C01_from_writes. exact (tokskip_writes c w wide dmaxp ptr delim H n d). Qed.
+Print Assumptions C14_tokskip_stores.
+Theorem C14_tokend_stores : forall c w dmaxp ptr delim n d tok, 0 < w ->
+  C01_holds (tokP w dmaxp ptr d n) (tokend c w dmaxp ptr delim n d tok).
+Proof. intros. apply C01_from_writes. exact (tokend_writes c w dmaxp ptr delim H n d tok). Qed.
+Print Assumptions C14_tokend_stores.
+Theorem C14_strtok_s_reports : forall c dest dmaxp delim ptr destbos, hspec tok_report [] (strtok_s c dest dmaxp delim ptr destbos).
+Proof. exact strtok_s_report. Qed.
+Print Assumptions C14_strtok_s_reports.
+Theorem C14_wcstok_s_reports : forall c dest dmaxp delim ptr destbos, hspec tok_report [] (wcstok_s c dest dmaxp delim ptr destbos).
+Proof. exact wcstok_s_report. Qed.
+Print Assumptions C14_wcstok_s_reports.
 Theorem C14_cfg_repo_wf : wf_cfg cfg_repo.
 Proof. exact wf_cfg_repo. Qed.
-Print Assumptions C14_cfg_repo_wf.
+(* non-vacuity / regression: "a,b" with delimiter "," yields a, b, then null pointers *)
+Example C14_example :
+  let m := fun a => if a =? 1000 then 97 else if a =? 1001 then 44 else if a =? 1002 then 98 else
+                    if a =? 2000 then 44 else if a =? 2024 then 44 else if a =? 2048 then 44 else if a =? 2072 then 44 else 0 in
+  fst (fst (exec (strtok_seq cfg_default 1000 4 4 2000 3000 BOS_UNKNOWN) m)) = [0; 2; 2; 2; 1; 3; -1; 1; 3; -1; 1; 3].
+Proof. vm_compute. reflexivity. Qed.
